@@ -157,3 +157,7 @@ def run(ctx):
     # a sub-project result that comes from a backward run: its absence steps are re-mapped by reverse_log_information
     from .C18 import r18_5
     r18_5(ctx)
+    # "occupies exactly ceil(...) consecutive *working* steps of the parent": a sub-project task is an automatic task -- it must stand
+    # still on the parent's absence steps unless this very run asks automatic tasks to go on (C10's rule on the flag's value)
+    from .C10 import r10_6
+    r10_6(ctx)
